@@ -179,9 +179,18 @@ class UTPM(Ring, RawAlgorithmsMixIn):
 
         # usual workflow
         else:
-            # print 'out=\n', out[0][sl]
-            # print 'ybar=\n',ybar
-            out[0][sl] = ybar
+            xbar = out[0]
+            idx = sl if isinstance(sl, tuple) else (sl,)
+            idx = (slice(None),slice(None)) + idx
+            if numpy.shares_memory(xbar.data.__getitem__(idx), ybar.data):
+                # basic indexing: ybar is a view of xbar[sl], the adjoint
+                # has been accumulated in place
+                xbar[sl] = ybar
+            else:
+                # an index array or a boolean mask made a copy: its adjoint
+                # is a separate array and has to be added (repeated indices
+                # included) to what other consumers of x contributed
+                numpy.add.at(xbar.data, idx, ybar.data)
 
         return out
 
